@@ -182,7 +182,9 @@ let handle line =
       | "PF" -> (Some (OPruneF (pv (List.hd args))), "m")
       | "PD" -> (Some (OPruneD (z_of_string (List.hd args))), "m")
       | "CL" -> (Some OClear, "-")
-      | "EX" -> (Some (OExpand (z_of_string (List.hd args))), "-")
+      | "EX" ->
+        let k = abs (tree s0) in
+        if zi (cdim k) <= 1 && closedb k then (Some (OExpand (z_of_string (List.hd args))), "-") else (None, "PRE")
       | _ -> failwith ("bad op " ^ tok) in
     let s1 = match o with Some o -> step fx s0 o | None -> s0 in
     let ret = if ret = "m" then bstr (ret_modified s0 s1) else ret in
